@@ -70,22 +70,18 @@ func (l *KUAndEKUInconsistent) multiPurpose(c *x509.Certificate) *lint.LintResul
 	// included extKeyUsage(es).
 	var mp = map[x509.KeyUsage]bool{}
 	for _, extKeyUsage := range c.ExtKeyUsage {
-		var i int
 		if _, ok := eku[extKeyUsage]; !ok {
 			return &lint.LintResult{Status: lint.Pass}
 		}
 		for ku := range eku[extKeyUsage] {
-			// There is nothing to merge for the first EKU.
-			if i > 0 {
-				// We could see this EKU combined with any other EKU so
-				// create that possibility.
-				for mpku := range mp {
-					mp[mpku|ku] = true
-				}
+			// We could see this KeyUsage combination together with any
+			// combination recorded so far, so create that possibility. The
+			// merge has to happen for every entry: skipping some of them made
+			// the outcome depend on the iteration order of the map.
+			for mpku := range mp {
+				mp[mpku|ku] = true
 			}
-
 			mp[ku] = true
-			i++
 		}
 	}
 	if !mp[c.KeyUsage] {
